@@ -83,7 +83,11 @@ def r02b(ctx, rep, which):
         for (n, line, fed) in good:
             g = cg.fns[n]
             defs = A.Defs(g)
-            sc = [c for c in A.calls(g) if re.search(r'fs::File::set_len$', c.resolved)][0]
+            scs = [c for c in A.calls(g) if re.search(r'fs::File::set_len$', c.resolved)] or \
+                  [c for c in A.calls(g) if re.search(r'Seek>?::seek$|Seek::seek$', c.resolved)]
+            if not scs or len(scs[0].args) < 2:
+                continue
+            sc = scs[0]
             sl = A.backward_slice(g, [sc.args[1]], defs)
             scanners = [cg.fns[x] for x in sl.calls if x in cg.fns and cg.path(x, lambda y: A.name_matches(y, READ_EXACT))]
             if A.calls_to(g, READ_EXACT):
@@ -97,6 +101,26 @@ def r02b(ctx, rep, which):
                                   'the record scan that decides where the log ends advances over a record without a must-pass test that the whole '
                                   'record is present (no comparison with the file length, payload not read with read_exact): a tail torn after the '
                                   'length prefix is counted as complete and never repaired')
+        if good and not append_mode:
+            # a handle that is not in append mode writes at its cursor: after the tail was cut the cursor has to be moved to the new end
+            stale = None
+            for n in sorted(reach):
+                g = cg.fns.get(n)
+                if g is None:
+                    continue
+                seeks = {c.bb for c in A.calls(g) if re.search(r'Seek>?::seek$|Seek::seek$', c.resolved) or re.search(r'Seek>?::seek$', c.generic)}
+                for c in A.calls(g):
+                    if re.search(r'fs::File::set_len$', c.resolved):
+                        start = [c.target] if c.target is not None and c.target >= 0 else []
+                        if lib.success_return_reachable(g, start, cut_blocks=seeks):
+                            stale = (g, c)
+            if stale:
+                g, c = stale
+                rep.violation('R02b', g, w + '-cursor-behind-the-cut', g.loc(c.line),
+                              '%s::open writes through a handle that is not in append mode, cuts the torn tail with set_len and can return '
+                              'without seeking to the new end: the next record is written at the old end of file, behind a hole of zero '
+                              'bytes that replay takes for a broken record' % w)
+                continue
         if good:
             rep.holds('R02b', f, w, 'set_len at %s:%d fed by a record scan' % (good[0][0], good[0][1]))
         else:
